@@ -38,12 +38,13 @@ static const char *w_counter_names[] = { "clear_applied", "clear_on_nonempty", "
                                           "concat_nonempty_source", "swap_with_one_empty", "pop_on_empty", NULL };
 
 static int w_nconfigs(int thorough) { return thorough ? 6 : 3; }
+static int USE_MACRO;
 static void w_setup(int cfg, int thorough)
 {
     int i, l, j, d;
     static const int v5[] = { 0, 1, 1, 2, 3 }, v6[] = { 2, 0, 1, 1, 3, 0 }, v4[] = { 1, 0, 1, 2 };
     const int *v;
-    MIXED = 0;
+    MIXED = 0; USE_MACRO = cfg & 1;      /* odd configurations build the lists with CSTL_DLIST_INITIALIZER instead of the init function */
     if (!thorough && cfg == 2) { MIXED = 1; cfg = 0; }
     if (thorough && cfg >= 4) { MIXED = 1; cfg = cfg == 4 ? 0 : 1; }
     if (!thorough) {
@@ -78,7 +79,11 @@ static void w_init(void)
     __asan_unpoison_memory_region(pool, sizeof pool);
     memset(pool, 0, sizeof pool);
     for (i = 0; i < N; i++) { pool[i].val = vals[i]; pool[i].idx = i; m_where[i] = -1; pool[i].pad = 0x1111; pool[i].tail = 0x2222; pool[i].pad2 = 0x3333; }
-    for (l = 0; l < NL; l++) { m_off[l] = (MIXED && l == NL - 1) ? offsetof(struct elem, n2) : offsetof(struct elem, n); memset(&L[l], 0xA5, sizeof L[l]); cstl_dlist_init(&L[l], m_off[l]); m_len[l] = 0; }
+    for (l = 0; l < NL; l++) { m_off[l] = (MIXED && l == NL - 1) ? offsetof(struct elem, n2) : offsetof(struct elem, n); memset(&L[l], 0xA5, sizeof L[l]);
+        if (!USE_MACRO) cstl_dlist_init(&L[l], m_off[l]);
+        else if (m_off[l] == offsetof(struct elem, n2)) L[l] = (struct cstl_dlist)CSTL_DLIST_INITIALIZER(L[l], struct elem, n2);
+        else L[l] = (struct cstl_dlist)CSTL_DLIST_INITIALIZER(L[l], struct elem, n);
+        m_len[l] = 0; }
 }
 
 static int w_enabled(mc_op_t o)
